@@ -25,7 +25,26 @@ def leaves(F, v, depth=0, seen=None):
         for o in d.ops:
             if not re.match(r'^-?\d+$', o):
                 out += leaves(F, o, depth + 1, seen)
+    elif d.op == 'call':
+        pure_helper(F, d)         # a static arithmetic helper (e.g. an extracted multiply-by-2): its result is computed from its arguments
+        for o in d.ops:
+            if not re.match(r'^-?\d+$', o):
+                out += leaves(F, o, depth + 1, seen)
     return out
+
+
+def pure_helper(F, call):
+    """the operations of a called function that only computes on its arguments (no memory access, no further call); anything else cannot be followed"""
+    g = F.mod.funcs.get(call.callee or '')
+    if g is None:
+        raise AnalysisBroken('%s: a value of the fold goes through a call of %s, which is not defined in the library' % (F.f.name, call.callee))
+    ops = set()
+    for i in g.all_insns():
+        if i.op in ('load', 'store', 'call', 'alloca'):
+            raise AnalysisBroken('%s: a value of the fold goes through %s, which is not a pure arithmetic helper (%s)' % (F.f.name, g.name, i.op))
+        if i.op not in ('br', 'ret', 'icmp', 'switch'):
+            ops.add(i.op)
+    return ops
 
 
 def ops_used(F, v, depth=0, seen=None):
@@ -43,6 +62,8 @@ def ops_used(F, v, depth=0, seen=None):
         for x, _ in d.extra['incoming']:
             out |= ops_used(F, x, depth + 1, seen)
     else:
+        if d.op == 'call':
+            out = (out - {'call'}) | pure_helper(F, d)
         for o in d.ops:
             out |= ops_used(F, o, depth + 1, seen)
     return out
